@@ -77,6 +77,10 @@ def lift2(f, a, b):
     bv = b.v if isinstance(b, Vec) else [b] * n
     if len(av) != len(bv):
         raise Undecided("vector length mismatch")
+    if isinstance(a, Vec) and isinstance(b, Vec) and a.labels is not None and b.labels is not None and (a.aligned or a.fresh) and (b.aligned or b.fresh) \
+            and len(a.labels) == len(av) and len(b.labels) == len(bv) and list(a.labels) != list(b.labels):
+        # two Series under different literal labels: pandas pairs the values by label (and re-orders the result), not by position
+        raise Undecided("elementwise operation of two Series whose literal index labels differ (pandas aligns them by label)")
     r = Vec((CTX.per_class(i, f, x, y) for i, (x, y) in enumerate(zip(av, bv))),
             fresh=(isinstance(a, Vec) and a.fresh) or (isinstance(b, Vec) and b.fresh),
             aligned=(isinstance(a, Vec) and a.aligned) or (isinstance(b, Vec) and b.aligned))
